@@ -181,10 +181,9 @@ def packs (ctab : List Row) : List Int := ctab.map fun c => packRgb c.r c.g c.b
 /-- `hstack((ctab[:, :4], _pack_rgb(ctab[:, :3])))` -/
 def withPacked (ctab : List Row) : List Row := ctab.map fun c => { c with a := packRgb c.r c.g c.b }
 
-/-- a label `write_annot` accepts: `-1` (needs a non-empty table, see finding
-    `annot:empty-ctab-unlabeled-vertices`) or a row number -/
+/-- a label `write_annot` accepts: `-1` (any table, the empty one included since the fix cb244bc8) or a row number -/
 def LabDom (avals : List Int) (l : Int) : Prop :=
-  (l = -1 ∧ avals ≠ []) ∨ (0 ≤ l ∧ l < avals.length)
+  l = -1 ∨ (0 ≤ l ∧ l < avals.length)
 
 instance (avals : List Int) (l : Int) : Decidable (LabDom avals l) := by unfold LabDom; infer_instance
 
@@ -195,22 +194,18 @@ def limitLabel (avals : List Int) (l : Int) : Int :=
 
 theorem label_roundtrip (avals : List Int) (hd : avals.Nodup) (hr : ∀ a ∈ avals, 0 ≤ a ∧ a < 16777216)
     (l : Int) (hl : LabDom avals l) :
-    ∃ c, clutLabel avals l = .ok c ∧ (-2147483648 ≤ c ∧ c < 2147483648) ∧
+    ∃ c, clutLabelFixed avals l = .ok c ∧ (-2147483648 ≤ c ∧ c < 2147483648) ∧
       backMap avals c = .ok (limitLabel avals l) := by
-  rcases hl with ⟨rfl, hne⟩ | ⟨h0, hn⟩
-  · have hpos : 0 < avals.length := List.length_pos_iff.2 hne
-    have hlt : (-1 + (avals.length : Int)).toNat < avals.length := by omega
-    have hlim : limitLabel avals (-1) = -1 := by simp [limitLabel]
+  rcases hl with rfl | ⟨h0, hn⟩
+  · have hlim : limitLabel avals (-1) = -1 := by simp [limitLabel]
     refine ⟨0, ?_, by omega, by rw [hlim]; exact backMap_zero avals⟩
-    have hj : ¬ (-1 + (avals.length : Int) < 0) := by omega
-    simp only [clutLabel, indexPy, show ((-1 : Int) < 0) from by decide, if_true, hj, if_false,
-      List.getElem?_eq_getElem hlt]
+    simp only [clutLabelFixed, if_true]
   · have hlt : l.toNat < avals.length := by omega
     have hrr := hr _ (List.getElem_mem hlt)
     have h1 : ¬ (l < 0) := by omega
     have h2 : l ≠ -1 := by omega
-    have hcl : clutLabel avals l = .ok avals[l.toNat] := by
-      simp only [clutLabel, indexPy, h1, if_false, List.getElem?_eq_getElem hlt, h2]
+    have hcl : clutLabelFixed avals l = .ok avals[l.toNat] := by
+      simp only [clutLabelFixed, indexPy, h1, if_false, List.getElem?_eq_getElem hlt, h2]
     refine ⟨avals[l.toNat], hcl, by omega, ?_⟩
     by_cases hz : avals[l.toNat] = 0
     · have hlim : limitLabel avals l = -1 := by
@@ -225,7 +220,7 @@ theorem label_roundtrip (avals : List Int) (hd : avals.Nodup) (hr : ∀ a ∈ av
 
 theorem labels_roundtrip (avals : List Int) (hd : avals.Nodup) (hr : ∀ a ∈ avals, 0 ≤ a ∧ a < 16777216)
     (labels : List Int) (h : ∀ l ∈ labels, LabDom avals l) :
-    ∃ cl, clutLabels avals labels = .ok cl ∧ cl.length = labels.length ∧
+    ∃ cl, clutLabelsFixed avals labels = .ok cl ∧ cl.length = labels.length ∧
       (∀ c ∈ cl, -2147483648 ≤ c ∧ c < 2147483648) ∧
       backMaps avals cl = .ok (labels.map (limitLabel avals)) := by
   induction labels with
@@ -233,7 +228,7 @@ theorem labels_roundtrip (avals : List Int) (hd : avals.Nodup) (hr : ∀ a ∈ a
   | cons l ls ih =>
     obtain ⟨c, h1, h2, h3⟩ := label_roundtrip avals hd hr l (h l (List.mem_cons_self ..))
     obtain ⟨cs, g1, g2, g3, g4⟩ := ih (fun x hx => h x (List.mem_cons_of_mem _ hx))
-    refine ⟨c :: cs, by simp only [clutLabels, h1, g1], by simp [g2], ?_,
+    refine ⟨c :: cs, by simp only [clutLabelsFixed, h1, g1], by simp [g2], ?_,
       by simp only [backMaps, h3, g4, List.map_cons]⟩
     intro x hx
     rcases List.mem_cons.1 hx with rfl | hx
@@ -294,7 +289,7 @@ theorem readAnnot_steps (bs : Bytes) (vnum : Int) (r0 : Bytes) (vals : List Int)
 
 theorem writeAnnot_steps (labels : List Int) (ctab : List Row) (has5 : Bool) (names : List Bytes) (fill : Bool)
     (ctab' : List Row) (cl : List Int) (ents : Bytes)
-    (h1 : fillCtab fill has5 ctab = .ok ctab') (h2 : clutLabels (ctab'.map (·.a)) labels = .ok cl)
+    (h1 : fillCtab fill has5 ctab = .ok ctab') (h2 : clutLabelsFixed (ctab'.map (·.a)) labels = .ok cl)
     (h3 : encEntries 0 ctab' names = .ok ents) :
     writeAnnot labels ctab has5 names fill
       = .ok (encI32 labels.length ++ (encVtx 0 cl ++ (encI32 1 ++ (encI32 (-2) ++
@@ -432,14 +427,11 @@ theorem recolour_rowOk (ctab : List Row) (rgb : List (Int × Int × Int)) (hc : 
 theorem limitLabel_dom (av av2 : List Int) (hlen : av2.length = av.length) (l : Int) (h : LabDom av l) :
     LabDom av2 (limitLabel av l) := by
   unfold limitLabel
-  rcases h with ⟨rfl, hne⟩ | ⟨h0, hn⟩
+  rcases h with rfl | ⟨h0, hn⟩
   · left
-    refine ⟨by simp, ?_⟩
-    intro e; rw [e] at hlen; exact hne (List.eq_nil_of_length_eq_zero hlen.symm)
+    simp
   · split
-    · left
-      refine ⟨rfl, ?_⟩
-      intro e; rw [e] at hlen; simp at hlen; omega
+    · left; rfl
     · right; omega
 
 /-- **Two-step history**: write, read, recolour `ctab[:, :3]` (5th column now STALE), write again with
